@@ -50,3 +50,10 @@ reg("C24", "model_checking", "TLA+ spec TunSend model-checked with TLC; wire-mon
     "every wire trace must be accepted by the TLA+ monitor (counter, single repetition, one outstanding frame, success only after own error-free ACK).",
     "Trusted: TLC, virtual-time loop, simulated gateway. No timing requirement on the repetition (the property states none).",
     "DESIGN.md section 5 C24")
+
+reg("C37", "model_checking", "TLA+ spec DevReg (naive scan) model-checked with TLC; trace validation of the real Devices index with real devices of 13 kinds",
+    "DevReg is model-checked (no duplicates, each user exactly once in registration order); random add/remove/re-add/duplicate/unregistered/process "
+    "histories over real devices sharing group addresses (passive and internal ones included) run on the real Devices class and each recorded result "
+    "(error or not, registry size, devices that processed the telegram in order, devices_by_group_address) must equal the spec's naive scan.",
+    "Trusted: TLC. Device.process is replaced by a recorder on each instance; group address sets are taken from Device.group_addresses().",
+    "DESIGN.md section 5 C37")
